@@ -5,14 +5,24 @@
      s:oid p:oid gs:oid:k:v:r gr:oid:k:r gf:oid:tag:r gc:oid:r q:oid:name d:oid l:oid:t z
      (  = unscoped SimplePipeline child   (! = child made by SimplePipeline::pipeline()
      (+ = scoped plain Pipeline child     (- = unscoped plain Pipeline child      ) = end of child
+   attribute VALUES (the v above and in message tokens) are typed: bare hex = QString, i~<int> = int, b~<0|1> = bool,
+     f~<n> = the double n/2, y~<hex bytes, 2 digits each> = QByteArray
    message token: <type 0..4>:<text>:<n | f<fmt>>:<k.v,k.v,...>
+   edit token (between message tokens; applied to the tree at that moment):  @<path>@<op>[@<arg>]
+     path = entry indices joined by '/', from the root's list down to the addressed pipeline ('' = the root)
+     a@<leaf token | z | ( | (- | (+ | (!>  Pipeline::append / operator<< / the fluent call (a new EMPTY child pipeline for the parens)
+     n                append({nullptr}): a null entry at the end      r@<oid>  Pipeline::remove(object)     c  Pipeline::clear()
+     k@<A|F|M|S|P>    SortedPipeline::clearAttrHandlers/Filters/Formatters/Sinks/Pipelines
+     t@<leaf token | (+ | (->   the typed call for the class of the leaf: appendAttrHandler / appendFilter / setFormatter / appendSink / appendPipeline
    output, one line per case: per message the events joined by ';' followed by the final content
    `e.<shown>.<F|U>.<attrs>.<raw>`; messages joined by '|'.
      x<oid>.<0|1>                                  the function of a scripted/built-in leaf ran, its return value
-     d<oid>.<s|p>.<shown>.<F|U>.<attrs>.<raw>      delivery to a sink / probe; attrs = sorted k=s<hex>|k=i<int>
+     d<oid>.<s|p>.<shown>.<F|U>.<attrs>.<raw>      delivery to a sink / probe; attrs = sorted k=s<hex>|i<int>|b<0|1>|f<n>|y<hex>
    mode "oracle": input line <tree>|<msgs>|<trace 1>|<trace 2>...  (traces in the output format);
      prints one digit per message: 0 = prop_c01_b holds, 1 order law, 2 scoped-restore law, 3 delivery law, 4 latest-effect law
-   mode "inline": prints the tree with every unscoped child inlined (Gallina [inline]) *)
+     (messages are judged against the tree of their moment: Gallina [which_steps])
+   mode "inline": prints the tree with every unscoped child inlined (Gallina [inline])
+   mode "after": prints the tree after all edits of the line *)
 open Pipeline_model
 let rec pos_of_int n = if n = 1 then XH else if n land 1 = 1 then XI (pos_of_int (n lsr 1)) else XO (pos_of_int (n lsr 1))
 let n_of_int n = if n = 0 then N0 else Npos (pos_of_int n)
@@ -27,22 +37,27 @@ let hex l = String.concat "" (List.map (fun u -> Printf.sprintf "%04x" (int_of_n
 let mtype_of_int = function 0 -> Debug | 1 -> Warning | 2 -> Critical | 3 -> Fatal | _ -> Info
 let int_of_mtype = function Debug -> 0 | Warning -> 1 | Critical -> 2 | Fatal -> 3 | Info -> 4
 let oid s = nat_of_int (int_of_string s)
+let unhex2 s = List.init (String.length s / 2) (fun i -> n_of_int (int_of_string ("0x" ^ String.sub s (2*i) 2)))
+let hex2 l = String.concat "" (List.map (fun u -> Printf.sprintf "%02x" (int_of_n u)) l)
+let parse_tval s =   (* a typed value token *)
+  if String.length s >= 2 && s.[1] = '~' then
+    let r = String.sub s 2 (String.length s - 2) in
+    match s.[0] with
+    | 'i' -> VInt (z_of_int (int_of_string r)) | 'b' -> VBool (r = "1") | 'f' -> VDbl (z_of_int (int_of_string r))
+    | 'y' -> VBytes (unhex2 r) | 's' -> VStr (unhex r) | _ -> failwith ("bad value " ^ s)
+  else VStr (unhex s)
+let show_tval = function
+  | VStr s -> hex s | VInt z -> "i~" ^ string_of_int (int_of_z z) | VBool b -> if b then "b~1" else "b~0"
+  | VDbl z -> "f~" ^ string_of_int (int_of_z z) | VBytes b -> "y~" ^ hex2 b
 let fluent_scoped = ref child_scoped_src   (* oracle mode: the property's value (true), not the source's *)
-let rec parse_list toks =   (* handlers, remaining tokens after the closing paren *)
-  match toks with
-  | [] -> ([], [])
-  | ")" :: r -> ([], r)
-  | t :: r ->
-    let p = String.split_on_char ':' t in
-    let leaf o l = (HLeaf (oid o, l), r) in
-    let (h, r') = match p with
-      | ["("] | ["(-"] -> let (hs, r2) = parse_list r in (HPipe (false, hs), r2)
-      | ["(+"] -> let (hs, r2) = parse_list r in (HPipe (true, hs), r2)
-      | ["(!"] -> let (hs, r2) = parse_list r in (HPipe (!fluent_scoped, hs), r2)
-      | ["as"; o; k; v] -> leaf o (LAttrSet (unhex k, unhex v))
+let parse_leaf t =   (* one non-structural token *)
+  let p = String.split_on_char ':' t in
+  let leaf o l = HLeaf (oid o, l) in
+  match p with
+      | ["as"; o; k; v] -> leaf o (LAttrSet (unhex k, parse_tval v))
       | ["ac"; o; k] -> leaf o (LAttrCopy (unhex k))
       | ["am"; o; kvs] -> leaf o (LAttrSetMany (List.map (fun kv -> match String.split_on_char '.' kv with
-                            | [k; v] -> (unhex k, unhex v) | _ -> failwith ("bad pair " ^ kv))
+                            | [k; v] -> (unhex k, parse_tval v) | _ -> failwith ("bad pair " ^ kv))
                             (List.filter (fun x -> x <> "") (String.split_on_char ',' kvs))))
       | ["ft"; o] -> leaf o (LFilter PTrue) | ["ff"; o] -> leaf o (LFilter PFalse)
       | ["fc"; o; s] -> leaf o (LFilter (PContains (unhex s))) | ["fh"; o; k] -> leaf o (LFilter (PHas (unhex k)))
@@ -50,13 +65,23 @@ let rec parse_list toks =   (* handlers, remaining tokens after the closing pare
       | ["mt"; o; tag] -> leaf o (LFmtTag (unhex tag)) | ["ma"; o; tag; k] -> leaf o (LFmtAttr (unhex tag, unhex k))
       | ["mn"; o] -> leaf o LFmtNull | ["me"; o] -> leaf o LFmtEmpty
       | ["s"; o] -> leaf o LSink | ["p"; o] -> leaf o LProbe
-      | ["gs"; o; k; v; b] -> leaf o (LGenSet (unhex k, unhex v, b = "1"))
+      | ["gs"; o; k; v; b] -> leaf o (LGenSet (unhex k, parse_tval v, b = "1"))
       | ["gr"; o; k; b] -> leaf o (LGenRemove (unhex k, b = "1"))
       | ["gf"; o; tag; b] -> leaf o (LGenFmt (unhex tag, b = "1")) | ["gc"; o; b] -> leaf o (LGenClear (b = "1"))
       | ["q"; o; name] -> leaf o (LSeq (unhex name)) | ["d"; o] -> leaf o LDup
       | ["l"; o; t] -> leaf o (LLevel (mtype_of_int (int_of_string t)))
-      | ["z"] -> (HNull, r)
-      | _ -> failwith ("bad token " ^ t) in
+      | ["z"] -> HNull
+      | _ -> failwith ("bad token " ^ t)
+let rec parse_list toks =   (* handlers, remaining tokens after the closing paren *)
+  match toks with
+  | [] -> ([], [])
+  | ")" :: r -> ([], r)
+  | t :: r ->
+    let (h, r') = match t with
+      | "(" | "(-" -> let (hs, r2) = parse_list r in (HPipe (false, hs), r2)
+      | "(+" -> let (hs, r2) = parse_list r in (HPipe (true, hs), r2)
+      | "(!" -> let (hs, r2) = parse_list r in (HPipe (!fluent_scoped, hs), r2)
+      | _ -> (parse_leaf t, r) in
     let (hs, r'') = parse_list r' in (h :: hs, r'')
 let b01 b = if b then "1" else "0"
 let rec show_tree b hs = List.iter (fun h -> Buffer.add_char b ' '; match h with
@@ -64,24 +89,42 @@ let rec show_tree b hs = List.iter (fun h -> Buffer.add_char b ' '; match h with
   | HPipe (sc, c) -> Buffer.add_string b (if sc then "(+" else "(-"); show_tree b c; Buffer.add_string b " )"
   | HLeaf (o, l) -> let o = string_of_int (int_of_nat o) in
     Buffer.add_string b (String.concat ":" (match l with
-      | LAttrSet (k, v) -> ["as"; o; hex k; hex v] | LAttrCopy k -> ["ac"; o; hex k]
-      | LAttrSetMany kvs -> ["am"; o; String.concat "," (List.map (fun (k, v) -> hex k ^ "." ^ hex v) kvs)]
+      | LAttrSet (k, v) -> ["as"; o; hex k; show_tval v] | LAttrCopy k -> ["ac"; o; hex k]
+      | LAttrSetMany kvs -> ["am"; o; String.concat "," (List.map (fun (k, v) -> hex k ^ "." ^ show_tval v) kvs)]
       | LFilter PTrue -> ["ft"; o] | LFilter PFalse -> ["ff"; o] | LFilter (PContains s) -> ["fc"; o; hex s]
       | LFilter (PHas k) -> ["fh"; o; hex k] | LFilter (PType t) -> ["fy"; o; string_of_int (int_of_mtype t)]
       | LFmtTag t -> ["mt"; o; hex t] | LFmtAttr (t, k) -> ["ma"; o; hex t; hex k] | LFmtNull -> ["mn"; o] | LFmtEmpty -> ["me"; o]
       | LSink -> ["s"; o] | LProbe -> ["p"; o]
-      | LGenSet (k, v, r) -> ["gs"; o; hex k; hex v; b01 r] | LGenRemove (k, r) -> ["gr"; o; hex k; b01 r]
+      | LGenSet (k, v, r) -> ["gs"; o; hex k; show_tval v; b01 r] | LGenRemove (k, r) -> ["gr"; o; hex k; b01 r]
       | LGenFmt (t, r) -> ["gf"; o; hex t; b01 r] | LGenClear r -> ["gc"; o; b01 r]
       | LSeq n -> ["q"; o; hex n] | LDup -> ["d"; o] | LLevel t -> ["l"; o; string_of_int (int_of_mtype t)]))) hs
 let split_nonempty c s = List.filter (fun x -> x <> "") (String.split_on_char c s)
 let parse_attrs s = List.fold_left (fun a kv -> match String.split_on_char '.' kv with
-    | [k; v] -> insert (unhex k) (VStr (unhex v)) a | _ -> failwith ("bad attr " ^ kv)) [] (split_nonempty ',' s)
+    | [k; v] -> insert (unhex k) (parse_tval v) a | _ -> failwith ("bad attr " ^ kv)) [] (split_nonempty ',' s)
 let parse_msg tok = match String.split_on_char ':' tok with
   | [t; text; f; a] ->
     { mt = mtype_of_int (int_of_string t); text = unhex text;
       fmt = (if f = "n" then None else Some (unhex (String.sub f 1 (String.length f - 1)))); mattrs = parse_attrs a }
   | _ -> failwith ("bad message " ^ tok)
 let show_val = function VStr s -> "s" ^ hex s | VInt z -> "i" ^ string_of_int (int_of_z z)
+  | VBool b -> if b then "b1" else "b0" | VDbl z -> "f" ^ string_of_int (int_of_z z) | VBytes b -> "y" ^ hex2 b
+let pipe_of_tok = function
+  | "(" | "(-" -> HPipe (false, []) | "(+" -> HPipe (true, []) | "(!" -> HPipe (!fluent_scoped, [])
+  | t -> parse_leaf t
+let class_of_tok = function "A" -> CAttr | "F" -> CFilter | "M" -> CFmt | "S" -> CSink | "P" -> CPipe
+  | t -> failwith ("bad class " ^ t)
+let parse_step tok =
+  if tok.[0] = '@' then
+    match String.split_on_char '@' tok with
+    | "" :: path :: op :: args ->
+      let path = List.map (fun x -> nat_of_int (int_of_string x)) (split_nonempty '/' path) in
+      let op = match op, args with
+        | "a", [t] -> OAppend (pipe_of_tok t) | "n", [] -> OAppendList [HNull] | "r", [o] -> ORemove (oid o)
+        | "c", [] -> OClear | "k", [c] -> OClearClass (class_of_tok c) | "t", [t] -> OSorted (pipe_of_tok t)
+        | _ -> failwith ("bad edit " ^ tok) in
+      SEdit { e_path = path; e_op = op }
+    | _ -> failwith ("bad edit " ^ tok)
+  else SMsg (parse_msg tok)
 let show_content c =
   let kv = List.sort compare (List.map (fun (k, v) -> hex k ^ "=" ^ show_val v) c.c_attrs) in
   Printf.sprintf "%s.%s.%s.%s" (hex c.c_text) (if c.c_formatted then "F" else "U") (String.concat "," kv) (hex c.c_raw)
@@ -89,7 +132,10 @@ let show_event = function
   | EExec (o, r) -> Printf.sprintf "x%d.%s" (int_of_nat o) (b01 r)
   | EDeliver (o, p, c) -> Printf.sprintf "d%d.%s.%s" (int_of_nat o) (if p then "p" else "s") (show_content c)
 let parse_val s = let r = String.sub s 1 (String.length s - 1) in
-  if s.[0] = 's' then VStr (unhex r) else VInt (z_of_int (int_of_string r))
+  match s.[0] with
+  | 's' -> VStr (unhex r) | 'i' -> VInt (z_of_int (int_of_string r)) | 'b' -> VBool (r = "1")
+  | 'f' -> VDbl (z_of_int (int_of_string r)) | 'y' -> VBytes (unhex2 r)
+  | _ -> failwith ("unknown attribute value " ^ s)
 let parse_content = function
   | [t; f; a; raw] ->
     { c_text = unhex t; c_formatted = (f = "F");
@@ -112,22 +158,20 @@ let () =
       let parts = String.split_on_char '|' line in
       let tree, msgs, traces = match parts with t :: m :: r -> t, m, r | _ -> failwith "bad line" in
       let (root, _) = parse_list (split_nonempty ' ' tree) in
-      let ms = List.map parse_msg (split_nonempty ' ' msgs) in
-      if mode = "oracle" then begin
-        let b = Buffer.create 16 in
-        List.iteri (fun i m ->
-          match List.nth_opt traces i with
-          | None -> Buffer.add_char b '9'
-          | Some tr ->
-            let evs = List.filter_map parse_event (split_nonempty ';' tr) in
-            Buffer.add_string b (string_of_int (int_of_nat (prop_c01_which root m evs)))) ms;
-        print_endline (Buffer.contents b)
-      end else if mode = "inline" then begin
+      if mode = "inline" then begin
         let b = Buffer.create 256 in show_tree b (inline root); print_endline (Buffer.contents b)
       end else begin
-        let (_, outs) = run_src root [] ms in
-        print_endline (String.concat "|" (List.map (fun (evs, fin) ->
-          String.concat ";" (List.map show_event evs @ ["e." ^ show_content fin])) outs))
-      end
+      let steps = List.map parse_step (split_nonempty ' ' msgs) in
+      if mode = "oracle" then begin
+        let trs = List.map (fun tr -> List.filter_map parse_event (split_nonempty ';' tr)) traces in
+        print_endline (String.concat "" (List.map (fun n -> string_of_int (int_of_nat n)) (which_steps root steps trs)))
+      end else if mode = "after" then begin
+        let t = List.fold_left (fun t s -> match s with SEdit e -> apply_edit e t | SMsg _ -> t) root steps in
+        let b = Buffer.create 256 in show_tree b t; print_endline (Buffer.contents b)
+      end else begin
+        let ((_, _), outs) = run_steps_src root [] steps in
+        print_endline (String.concat "|" (List.map (fun o ->
+          String.concat ";" (List.map show_event o.o_events @ ["e." ^ show_content o.o_final])) outs))
+      end end
     with Failure e -> print_endline ("!ERR " ^ e) | Not_found -> print_endline "!ERR parse" | Invalid_argument e -> print_endline ("!ERR " ^ e))
   done with End_of_file -> ()
